@@ -140,9 +140,10 @@ func FetchFn(from interface{}, name string) reflect.Value {
 	panic(fmt.Sprintf(`cannot get "%v" from %T`, name, from))
 }
 
-// derefFn follows pointers to a function: the checker accepts a call of a member of type *func(...).
+// derefFn follows pointers (and the interfaces met on the way) to a function: the checker accepts a call of
+// a member of type *func(...) and of type *interface{}.
 func derefFn(value reflect.Value) reflect.Value {
-	for value.Kind() == reflect.Ptr && !value.IsNil() {
+	for (value.Kind() == reflect.Ptr || value.Kind() == reflect.Interface) && !value.IsNil() {
 		value = value.Elem()
 	}
 	return value
